@@ -42,6 +42,8 @@ func c14Values() []any {
 		l(), l("a"), l("a", "b"), l(1, "a", true), l("", "x"), l(l("a"), l("b", "c")), l(l("a"), "b"), l(l(), l()), l(m("k", "v")), l(m("k", "v"), m("j", 1)), l(1.5, 2), l("a", l(l("b"))),
 		m(), m("k", "v"), m("b", 1, "a", 2), m("k", ""), m("k", l("x", "y")), m("k", l(), "j", "v"), m("k", m("n", 1)), m("a", true, "b", 1.5, "c", "s"), m("k", l(1, "")),
 		m("a", m("b", m("c", l(1, m("d", "e"))))), m("z", "1", "y", "true", "x", "null"), m("k", l(l("n"))),
+		// text whose standard base64 uses + and /; zero values under tolist/flags
+		"???", "x>>", "~~~", m("z", 0, "f", false, "e", "", "n", 0.0), l(m("z", 0), m("f", false)), m("k", l(0, false, "")),
 		// integers around the 32/53/64-bit boundaries, floats that must stay floats
 		2147483647, 2147483648, -2147483649, 9007199254740993, math.MaxInt64, math.MinInt64, 0.1, 1e21, 1e-7,
 		m("big", 3000000000, "huge", 9007199254740993, "max", math.MaxInt64, "f", 0.1), l(2147483648, 4294967296, -2147483649),
@@ -614,7 +616,7 @@ func buildC14(tier string) *core.Plan {
 		}})
 	return &core.Plan{
 		Spaces: spaces,
-		Rule:   "46 values (scalars, flat/nested maps and lists, list-valued and empty-string entries) x every stack of <=2 (thorough 3) of 29 transform spellings (valid, malformed arguments, unknown, non-string) in map form, list-marker form and $value form; decode(encode(v)) for 6 formats",
+		Rule:   "52 values (scalars, flat/nested maps and lists, list-valued and empty-string entries) x every stack of <=2 (thorough 3) of 29 transform spellings (valid, malformed arguments, unknown, non-string) in map form, list-marker form and $value form; decode(encode(v)) for 6 formats",
 		Assumptions: []string{"refEncode is built on crypto/sha256, encoding/base64, encoding/json and strings; yaml/toml text is judged by parsing it back with yaml.v3 / go-toml called directly (not through bkl) and comparing values",
 			"not judged: base64/sha256 of containers, join/prefix/tolist over nested containers, toml of non-maps or of empty/mixed arrays, a transform applied to yaml/toml text (exact bytes not fixed)"},
 		Bounds: map[string]any{"values": len(vals), "transforms": len(c14Transforms)},
